@@ -63,6 +63,16 @@ def _mkvar(rng, name, vd, dl, vi, masked):
     return dict(name=name, dims=list(vd), dtype=rng.choice(DTYPES), masked=masked, attrs=attrs, data=data)
 
 
+def drop_fill_attrs(rng, spec, prob=0.4):
+    """turn some masked variables of a spec into masked variables without a fill attribute (created from masked
+    values); the attribute is then absent from the source, operations may or may not add it"""
+    for v in spec['vars']:
+        if v['masked'] and v['dims'] and rng.random() < prob:
+            v['nofill'] = True
+            v['attrs'] = [a for a in v['attrs'] if a != 'fill_value']
+    return spec
+
+
 def shape_of(spec, v):
     dl = {d[0]: d[1] for d in spec['dims']}
     return [dl[n] for n in v['dims']]
@@ -81,8 +91,12 @@ def build(spec, cls=None):
         if v['masked']:
             mask = np.array([x is None for x in v['data']], dtype=bool).reshape(shape)
             arr = np.ma.masked_array(vals, mask=mask)
-            var = f.createVariable(v['name'], v['dtype'], tuple(v['dims']), fill_value=-999)
-            var[...] = arr
+            if v.get('nofill'):
+                # a masked variable without any fill attribute: built from masked values (as many readers do)
+                var = f.createVariable(v['name'], v['dtype'], tuple(v['dims']), values=arr)
+            else:
+                var = f.createVariable(v['name'], v['dtype'], tuple(v['dims']), fill_value=-999)
+                var[...] = arr
         else:
             var = f.createVariable(v['name'], v['dtype'], tuple(v['dims']))
             var[...] = vals
@@ -109,8 +123,10 @@ def encode(spec):
     return d, (';'.join(vs) or '-'), ('.'.join(spec['attrs']) or '-')
 
 
-def observe(f, with_unlim=True):
-    """canonical text of a real file, identical in form to PFile.showFile"""
+def observe(f, with_unlim=True, spec=None):
+    """canonical text of a real file, identical in form to PFile.showFile; with `spec`: a fill_value attribute that an
+    operation added to a variable built from masked values without one is not listed (it restates the mask)"""
+    nofill = {v['name'] for v in spec['vars'] if v.get('nofill')} if spec else set()
     ds = []
     for k in sorted(f.dimensions):
         d = f.dimensions[k]
@@ -124,8 +140,9 @@ def observe(f, with_unlim=True):
         cells = ['_' if (m or (isinstance(x, float) and x != x)) else lib.show_rat(x)
                  for x, m in zip(vals.tolist(), mask.tolist())]   # NaN cells are shown like masked cells
         shape = 'x'.join(str(s) for s in np.shape(arr)) or '-'
+        attrs = sorted(a for a in v.ncattrs() if not (k in nofill and a == 'fill_value'))
         vs.append('%s|%s|%s|%s|%s|%s' % (k, '.'.join(v.dimensions) or '-', 'm' if '_' in cells else 'p',
-                                        '.'.join(sorted(v.ncattrs())) or '-', shape, lib.show_list(cells)))
+                                        '.'.join(attrs) or '-', shape, lib.show_list(cells)))
     return 'dims=%s vars=%s attrs=%s' % (lib.show_list(ds), ';'.join(vs) or '-', '.'.join(sorted(f.ncattrs())) or '-')
 
 
